@@ -11,6 +11,7 @@ pub mod dest;
 pub mod socks;
 pub mod http;
 pub mod auth;
+pub mod udp;
 
 pub fn run(args: &Args, log: &Log) -> Result<(), String> {
     match args.driver.as_str() {
@@ -26,6 +27,7 @@ pub fn run(args: &Args, log: &Log) -> Result<(), String> {
         "socks" => socks::run(args, log),
         "http" => http::run(args, log),
         "auth" => auth::run(args, log),
+        "udp" => udp::run(args, log),
         d => Err(format!("unknown driver {d}")),
     }
 }
